@@ -176,8 +176,17 @@ func muxScenario(id string, seed uint64) runner.Result {
 	}
 
 	var steps []string
+	preCancelled := r.Intn(15) == 0
+	if preCancelled {
+		// the context is already cancelled when Run is entered: the multiplexer stops at once,
+		// which must look exactly like stopping later
+		cancel()
+	}
 	runOp := rig.Go("Run", func() (interface{}, error) { return nil, mux.Run(ctx) })
 	steps = append(steps, fmt.Sprintf("plen=%d", plen))
+	if preCancelled {
+		steps = append(steps, "cancel-before-Run")
+	}
 
 	routesAdded := 0
 	addRoute := func() {
@@ -204,7 +213,7 @@ func muxScenario(id string, seed uint64) runner.Result {
 	regen := map[string]int{}
 
 	nconn := 2 + r.Intn(8)
-	stopped := false
+	stopped := preCancelled
 	var reRouteDead []string
 	stallRelease := make(chan struct{})
 	defer close(stallRelease)
